@@ -29,7 +29,7 @@ def dispatch (line : String) : String :=
         else if prop = "c16" then C16.handle op ns
         else if prop = "c07" then C07.handle op ns
         else if (prop = "c01" || prop = "c08") && op = "prog" then C01.handle op ns
-        else if prop = "c03" || prop = "c01" || prop = "c02" || prop = "c08" then C03.handle op ns
+        else if prop = "c03" || prop = "c01" || prop = "c02" || prop = "c08" || prop = "c06" || prop = "c20" then C03.handle op ns
         else if prop = "c17" then C17.handle op ns
         else if prop = "c18" then (C03.handle op ns).map fun v =>
           if v = "ACCEPT" then "OK" else if v.startsWith "REJECT" then "ERR" else v
